@@ -23,7 +23,7 @@ from pyvc.textio import PathI, TextOutI, TextFileI, StringIOI
 from pyvc.values import SStr, SBool, SList, Opaque, to_z3, wrap
 from pyvc.models import SIter
 from contracts.common import (implies, iff, forall_range, exists_range, prefix_join, join_of, peek, is_opaque)
-from contracts import text_spec
+from contracts import text_spec, replays_c14
 from contracts.text_spec import NL, is_line, is_split_nl, split_nl, lines_of
 
 from exactly_lib.type_val_prims.string_source.contents import StringSourceContents
@@ -83,12 +83,10 @@ def with_lines(cm):
         return list(lines)
 
 
-def ctx_lines(g):
-    """the lines a `with x.as_lines as lines` block sees: g is the (not yet entered) generator of the
-    @contextmanager property"""
-    if isinstance(g, list):       # a replay has already drained the generator
-        return list(g[0])
-    return list(next(g))
+def ctx_lines(yielded):
+    """the lines a `with x.as_lines as lines` block sees; `yielded`: what the generator function of the
+    @contextmanager property yields (one item: the iterator)"""
+    return list(yielded[0])
 
 
 def _res(interp, v):
@@ -239,7 +237,31 @@ def txt_of(c):
         return txt_of(c._unfrozen)
     if isinstance(c, tss_prims._TransformedStringSourceContentsFromLines):
         return c._transformation.F(txt_of(c._transformed))
+    if isinstance(c, concat_mod._ConcatStringSourceContents):
+        return join_of(part_txts(c._parts))
     raise ValueError('txt_of: unexpected class %r' % (type(c),))
+
+
+def part_txts(parts):
+    """the texts of a sequence of sources"""
+    return [p.contents().as_str for p in parts]
+
+
+def _m_part_txts(interp, args, kwargs):
+    """proof level: ONE list per sequence of sources (so that its prefix-join measure is one function)"""
+    parts = _res(interp, args[0])
+    ys = parts.aux.get('part_txts')
+    if ys is None:
+        def elem(interp2, idx):
+            from pyvc import models as _m
+            return interp2.reg.opaque_getattr(interp2, _m.slist_elem(interp2, parts, idx), 'txt')
+
+        ys = SList(parts.length, elem, parts.uid + '.txts')
+        parts.aux['part_txts'] = ys
+    return ys
+
+
+M.model(part_txts, _m_part_txts)
 
 
 def cached_path_ok(c):
@@ -257,7 +279,8 @@ M.contract(P_COS + ':ContentsOfStr.as_str', params=dict(self=CONTENTS_OF_STR), i
            ensures={'as_str == txt': lambda self, result: result == txt_of(self)}, raises_only=())
 
 M.contract(P_COS + ':ContentsOfStr.as_lines', params=dict(self=CONTENTS_OF_STR), inline=True,
-           ensures={'lines == split_nl(txt)': lambda self, result: is_split_nl(ctx_lines(result), txt_of(self))},
+           ensures={'lines == split_nl(txt)': lambda self, yielded: is_split_nl(ctx_lines(yielded), txt_of(self))},
+           replay=lambda model, rf: replays_c14.source('lines_of_contents_of_str'),
            raises_only=())
 
 M.contract(P_COS + ':ContentsOfStr.write_to', params=dict(self=CONTENTS_OF_STR, output=Iface(TextOutI)), inline=True,
@@ -276,7 +299,7 @@ M.contract(P_COEP + ':StringSourceContentsOfExistingPath.as_str', params=dict(se
            ensures={'as_str == txt': lambda self, result: result == txt_of(self)}, raises_only=())
 
 M.contract(P_COEP + ':StringSourceContentsOfExistingPath.as_lines', params=dict(self=CONTENTS_OF_PATH), inline=True,
-           ensures={'lines == split_nl(txt)': lambda self, result: is_split_nl(ctx_lines(result), txt_of(self))},
+           ensures={'lines == split_nl(txt)': lambda self, yielded: is_split_nl(ctx_lines(yielded), txt_of(self))},
            raises_only=())
 
 M.contract(P_COEP + ':StringSourceContentsOfExistingPath.as_file', params=dict(self=CONTENTS_OF_PATH), inline=True,
@@ -308,7 +331,8 @@ M.contract(_P_CSP + '.as_str', params=dict(self=CONST_STR_AND_PATH), inline=True
            ensures={'as_str == txt': lambda self, result: result == txt_of(self)}, raises_only=())
 
 M.contract(_P_CSP + '.as_lines', params=dict(self=CONST_STR_AND_PATH), inline=True,
-           ensures={'lines == split_nl(txt)': lambda self, result: is_split_nl(ctx_lines(result), txt_of(self))},
+           ensures={'lines == split_nl(txt)': lambda self, yielded: is_split_nl(ctx_lines(yielded), txt_of(self))},
+           replay=lambda model, rf: replays_c14.source('lines_of_const_str_and_path'),
            raises_only=())
 
 M.contract(_P_CSP + '.as_file', params=dict(self=CONST_STR_AND_PATH), inline=True,
@@ -324,13 +348,12 @@ M.contract(_P_CSP + '.write_to', params=dict(self=CONST_STR_AND_PATH, output=Ifa
 # as_str / write_to in terms of the (abstract) as_lines: proved for an arbitrary object whose as_lines
 # yields split_nl(txt).
 
-for _q in (P_CONTENTS + ':StringSourceContents', P_CWCP + ':ContentsWithCachedPathFromAsLinesBase'):
-    M.contract(_q + '.as_str', params=dict(self=SSC), inline=True,
-               ensures={'as_str == txt': lambda self, result: result == self.txt}, raises_only=())
-    M.contract(_q + '.write_to', params=dict(self=SSC, output=Iface(TextOutI)), inline=True,
-               old=lambda output: written(output),
-               ensures={'appends txt': lambda self, output, old: written(output) == old + self.txt},
-               raises_only=())
+M.contract(P_CONTENTS + ':StringSourceContents.as_str', params=dict(self=SSC), inline=True,
+           ensures={'as_str == txt': lambda self, result: result == self.txt}, raises_only=())
+M.contract(P_CONTENTS + ':StringSourceContents.write_to', params=dict(self=SSC, output=Iface(TextOutI)), inline=True,
+           old=lambda output: written(output),
+           ensures={'appends txt': lambda self, output, old: written(output) == old + self.txt},
+           raises_only=())
 
 
 # ============================================================================== ContentsViaWriteTo
@@ -345,28 +368,75 @@ M.contract(P_CVWT + ':ContentsViaWriteTo.as_str', params=dict(self=CONTENTS_VIA_
            ensures={'as_str == txt': lambda self, result: result == txt_of(self)}, raises_only=())
 
 M.contract(P_CVWT + ':ContentsViaWriteTo.as_lines', params=dict(self=CONTENTS_VIA_WRITE_TO), inline=True,
-           ensures={'lines == split_nl(txt)': lambda self, result: is_split_nl(ctx_lines(result), txt_of(self))},
+           ensures={'lines == split_nl(txt)': lambda self, yielded: is_split_nl(ctx_lines(yielded), txt_of(self))},
            raises_only=())
 
 M.contract(P_CVWT + ':ContentsViaWriteTo.write_to',
            params=dict(self=CONTENTS_VIA_WRITE_TO, output=Iface(TextOutI)), inline=True,
            old=lambda output: written(output),
            ensures={'appends txt': lambda self, output, old: written(output) == old + txt_of(self)},
+           replay=lambda model, rf: replays_c14.source('write_to_of_via_write_to'),
            raises_only=())
 
 # ============================================================================== the cached file (as_file / _to_file)
 
-WITH_CACHED_PATH_FROM_WRITE_TO = Union(CONTENTS_OF_STR, CONTENTS_VIA_WRITE_TO)
+# ============================================================================== transformed contents (lines -> lines)
+# StringTransFun = Callable[[Iterator[str]], Iterator[str]].  The contract of a lines transformation: there is
+# a function F on texts such that, given the lines of a text t (a proper division: obligation at the call),
+# it yields the lines of F(t).  Proved for the identity transformer below and for `replace` in C05
+# (`_lines_iterator_from_replacements` yields split_nl of the concatenated replacements); `filter` in C13.
+
+def _lines_fn_call(interp, self, args, kwargs):
+    from pyvc import models as _m
+    lines = _m.as_siter(interp, _res(interp, args[0]))
+    xs = texts.m_peek(interp, [lines], {})
+    t = texts.join_all(interp, xs)
+    ok = interp.truth(interp.call(is_split_nl, [xs, t]))
+    interp.st.oblige('%s : requires of LinesFnI.__call__ (the input is a division into lines)'
+                     % interp.current_function_name(), ok, {'kind': 'callee-pre'})
+    interp.st.assume(ok)
+    out = interp.reg.call_opaque(interp, self, 'F', [t], {})
+    return SIter(texts.lines_of_text(interp, out), 0)
+
+
+class LinesFnI(Interface):
+    methods = {'F': Method(returns=Str, pure=True), '__call__': Method(model=_lines_fn_call)}
+
+
+TRANSFORMED_CONTENTS = Inst(tss_prims._TransformedStringSourceContentsFromLines, _invariant=cached_path_ok,
+                            _transformed=SSC, _transformation=Iface(LinesFnI),
+                            _transformation_may_depend_on_external_resources=Bool,
+                            _as_file_path=Opt(Iface(PathI)), _file_name=Const(None))
+_P_TC = P_TSS + ':_TransformedStringSourceContentsFromLines'
+
+M.contract(_P_TC + '.as_lines', params=dict(self=TRANSFORMED_CONTENTS), inline=True,
+           ensures={'lines == split_nl(txt)': lambda self, yielded: is_split_nl(ctx_lines(yielded), txt_of(self))},
+           raises_only=())
+M.contract(_P_TC + '.tmp_file_space', params=dict(self=TRANSFORMED_CONTENTS), inline=True,
+           ensures={'of the source': lambda self, result: result is self._transformed.tmp_file_space},
+           raises_only=())
+
+M.contract(P_CWCP + ':ContentsWithCachedPathFromAsLinesBase.as_str', params=dict(self=TRANSFORMED_CONTENTS), inline=True,
+           ensures={'as_str == txt': lambda self, result: result == txt_of(self)}, raises_only=())
+M.contract(P_CWCP + ':ContentsWithCachedPathFromAsLinesBase.write_to',
+           params=dict(self=TRANSFORMED_CONTENTS, output=Iface(TextOutI)), inline=True,
+           old=lambda output: written(output),
+           ensures={'appends txt': lambda self, output, old: written(output) == old + txt_of(self)},
+           raises_only=())
+
+WITH_CACHED_PATH_FROM_WRITE_TO = Union(CONTENTS_OF_STR, CONTENTS_VIA_WRITE_TO, TRANSFORMED_CONTENTS)
 
 M.contract(P_CWCP + ':ContentsWithCachedPathFromWriteToBase._to_file',
            params=dict(self=WITH_CACHED_PATH_FROM_WRITE_TO), inline=True,
            ensures={'file decodes to txt': lambda self, result: file_text(result) == txt_of(self)},
+           replay=lambda model, rf: replays_c14.source('as_file_of_contents_of_str'),
            raises_only=())
 
 M.contract(P_CWCP + ':StringSourceContentsWithCachedPath.as_file',
            params=dict(self=WITH_CACHED_PATH_FROM_WRITE_TO), inline=True,
            ensures={'file decodes to txt': lambda self, result: file_text(result) == txt_of(self),
                     'the path is cached': lambda self, result: self._as_file_path is result},
+           replay=lambda model, rf: replays_c14.source('as_file_of_contents_of_str'),
            raises_only=())
 
 
@@ -482,7 +552,8 @@ M.contract(_P_STF + '._rollover', params=dict(self=Union(SPOOLED_MEM_ANY_SIZE, S
                'the disk file holds what was written': lambda self, old: spooled_written(self) == old[0],
                'positioned at the end of the disk file (further writes append)': lambda self: spooled_ok(self),
                'size unchanged': lambda self, old: self._max_size == old[2],
-           }, raises_only=())
+           }, replay=lambda model, rf: replays_c14.source('rollover_position'),
+           raises_only=())
 
 M.contract(_P_STF + '._check', params=dict(self=SPOOLED_MEM_ANY_SIZE, file=Any_), inline=True,
            setup=lambda interp, args, ghosts: args.__setitem__('file', args['self']._file),     # file is self._file
@@ -607,7 +678,8 @@ M.contract(P_FROZEN + ':frozen__from_write',
                'kept in memory iff it fits in the buffer': lambda writer, mem_buff_size, result:
                is_opaque(result) or iff(isinstance(result, contents_of_str.ContentsOfStr),
                                         len(writer_txt(writer)) <= mem_buff_size),
-           }, raises_only=())
+           }, replay=lambda model, rf: replays_c14.source('frozen_from_write'),
+           raises_only=())
 
 
 # ============================================================================== cached_frozen
@@ -680,4 +752,127 @@ M.contract(_P_SSCF + '.__init__',
            params=dict(self=Inst(cached_frozen.StringSourceWithCachedFrozen), new_structure_builder=Any_, unfrozen=SSC,
                        mem_buff_size=Int, name_suffix=Opt(Str)), inline=True,
            ensures={'unfrozen contents': lambda self, unfrozen: self.contents() is unfrozen and not self._is_frozen},
+           raises_only=())
+
+
+# ============================================================================== TransformedStringSourceFromLines
+# the StringSource of `-transformed-by`: its text is F(text of the transformed source), before and after freeze
+
+def ss_txt(s):
+    """the text of a source: that of its current contents"""
+    return txt_of(s.contents())
+
+
+def _transformed_source_ok(s):
+    return s._contents._transformation is s._transformation \
+        and txt_of(s._contents._transformed) == s._transformed.txt and cached_path_ok(s._contents)
+
+
+def _mk_transformed_source(interp, name):
+    s = Inst(tss_prims.TransformedStringSourceFromLines, _transformed=SS, _transformation=Iface(LinesFnI),
+             _transformation_may_depend_on_external_resources=Bool, _get_transformer_structure=Any_,
+             _is_frozen=Bool).make(interp, name)
+    c = TRANSFORMED_CONTENTS.make(interp, name + '._contents')
+    c._transformation = s._transformation
+    s._contents = c
+    assume_pred(interp, _transformed_source_ok, s)
+    return s
+
+
+TRANSFORMED_SOURCE = Custom(_mk_transformed_source)
+_P_TS = P_TSS + ':TransformedStringSourceFromLines'
+
+
+def freeze_events(trace, source):
+    return [e for e in trace if e[0] == 'freeze' and e[1] is source]
+
+
+M.contract(_P_TS + '.__init__',
+           params=dict(self=Inst(tss_prims.TransformedStringSourceFromLines), transformation=Iface(LinesFnI),
+                       transformed=SS, transformation_may_depend_on_external_resources=Bool,
+                       get_transformer_structure=Any_), inline=True,
+           ensures={'text is F(text of the transformed)': lambda self, transformation, transformed:
+                    ss_txt(self) == transformation.F(transformed.txt),
+                    'invariant': lambda self: _transformed_source_ok(self) and not self._is_frozen,
+                    'the source is not frozen by construction': lambda transformed, trace:
+                    freeze_events(trace, transformed) == []},
+           raises_only=())
+
+M.contract(_P_TS + '.contents', params=dict(self=TRANSFORMED_SOURCE), inline=True,
+           ensures={'the contents': lambda self, result: result is self._contents}, raises_only=())
+
+M.contract(_P_TS + '.freeze', params=dict(self=TRANSFORMED_SOURCE),
+           old=lambda self: (ss_txt(self), self._is_frozen, self._contents),
+           ensures={
+               'same text before and after freeze': lambda self, old: ss_txt(self) == old[0],
+               'invariant': lambda self: _transformed_source_ok(self) and self._is_frozen,
+               'freezes the transformed source, once': lambda self, old, trace:
+               len(freeze_events(trace, self._transformed)) == (0 if old[1] else 1),
+               'idempotent': lambda self, old: (not old[1]) or self._contents is old[2],
+           }, raises_only=())
+
+# ============================================================================== identity / && / ||
+
+from exactly_lib.impls.types.string_transformer.impl import identity as identity_mod            # noqa: E402
+from exactly_lib.impls.types.string_matcher import parse_string_matcher                        # noqa: E402
+
+P_IDENTITY = 'exactly_lib.impls.types.string_transformer.impl.identity'
+IDENTITY = Inst(identity_mod.IdentityStringTransformer, _structure_renderer=Any_)
+
+M.contract(P_IDENTITY + ':IdentityStringTransformer._transform', params=dict(self=IDENTITY, lines=IterOf(Str)),
+           inline=True, ensures={'the lines themselves': lambda lines, result: result is lines}, raises_only=())
+
+M.contract('exactly_lib.impls.types.string_transformer.impl.sources.transformed_string_sources'
+           ':StringTransformerFromLinesTransformer.transform',
+           params=dict(self=IDENTITY, model=SS),
+           ensures={
+               'wrapped in identity: same characters': lambda model, result: result.contents().as_str == model.txt,
+               'wrapped in identity: same lines': lambda model, result:
+               is_split_nl(with_lines(result.contents().as_lines), model.txt),
+               'does not freeze or consume the model': lambda model, trace: freeze_events(trace, model) == [],
+           }, raises_only=())
+
+M.contract('exactly_lib.impls.types.string_matcher.parse_string_matcher:_model_freezer', params=dict(model=SS),
+           ensures={'the model itself': lambda model, result: result is model,
+                    '&& and || freeze the model, once, and do nothing else to it': lambda model, trace:
+                    len(freeze_events(trace, model)) == 1 and len(trace) == len([e for e in trace if e[1] is model])},
+           raises_only=())
+
+
+# ============================================================================== equals: both texts in files
+# `_ExtDepsOfBothHandler._do_compare` compares the two files byte-wise (filecmp), the other three
+# strategies of `equals` (C05) compare text: the verdict must be the same.
+
+from exactly_lib.impls.types.string_matcher.impl import equality as equality_mod                 # noqa: E402
+
+P_EQ = 'exactly_lib.impls.types.string_matcher.impl.equality'
+
+M.contract(P_EQ + ':_ExtDepsOfBothHandler._do_compare',
+           params=dict(self=Inst(equality_mod._ExtDepsOfBothHandler, _result_for_match=Any_,
+                                 _build_result_for_no_match=Any_, _expected=Iface(PathI)),
+                       processed_actual_file_path=Iface(PathI)),
+           returns=Bool, props=('C14', 'C05'),
+           ensures={'equal iff the two texts are equal': lambda self, processed_actual_file_path, result:
+                    result == (file_text(processed_actual_file_path) == file_text(self._expected))},
+           replay=lambda model, rf: replays_c14.source('do_compare'),
+           raises_only=())
+
+
+# ============================================================================== concatenation of sources
+# txt := the concatenation of the texts of the parts.
+
+CONCAT_CONTENTS = Inst(concat_mod._ConcatStringSourceContents, _invariant=cached_path_ok,
+                       _parts=ListOf(SS, min_len=2), _file_name=Str, _as_file_path=Opt(Iface(PathI)))
+_P_CC = P_CONCAT + ':_ConcatStringSourceContents'
+
+M.contract(_P_CC + '.write_to', params=dict(self=CONCAT_CONTENTS, output=Iface(TextOutI)), inline=True,
+           old=lambda output: written(output),
+           ensures={'appends txt': lambda self, output, old: written(output) == old + txt_of(self)},
+           raises_only=())
+M.loop(_P_CC + '.write_to', 0,
+       invariant=lambda self, output, old, _i: written(output) == old + prefix_join(part_txts(self._parts), _i),
+       modifies={'output': InPlace(written=Str), 'part': 'local'})
+
+M.contract(_P_CC + '.tmp_file_space', params=dict(self=CONCAT_CONTENTS), inline=True,
+           ensures={'of the first part': lambda self, result: result is self._parts[0].tmp_file_space},
            raises_only=())
